@@ -16,7 +16,7 @@ from harness.lib import common
 PROP = 'C12'
 PROP_FILE = 'Props/C12.v'
 THEOREMS = ['C12_exclusive', 'C12_bound', 'C12_no_lost_wakeup', 'C12_waiter_served_at_once',
-            'C12_quiescent_clean', 'C12_quiescent_clean_no_cancel', 'C12_deadlock_free',
+            'C12_quiescent_clean', 'C12_checkin_sweeps_all_hosts', 'C12_quiescent_clean_no_cancel', 'C12_deadlock_free',
             'C12_no_exception_no_lock_held']
 TRUSTED = [
     'hand-written LTS Model/Pool.v of wpull/network/pool.py + BaseSession exit discipline, tied by the trace-inclusion run of this check',
@@ -38,7 +38,8 @@ LEVEL_TEXT = ('proof: all six clauses are Coq theorems over the LTS Model/Pool.v
               'closes and clean() calls (reachable-state induction with one invariant, Proofs/PoolInv.v + PoolStep.v): '
               'exclusive holder + busy = held-or-owed (C12_exclusive), <= M per host (C12_bound), no lost wake-up and a notified '
               'waiter is served in its next step (C12_no_lost_wakeup, C12_waiter_served_at_once), quiescent => nothing checked out '
-              'and clean() drops idle hosts, with and without cancellation (C12_quiescent_clean[_no_cancel]), no stuck state for '
+              'and clean() drops idle hosts, with and without cancellation (C12_quiescent_clean[_no_cancel]); every completed check in / '
+              'clean() sweeps ALL host pools (C12_checkin_sweeps_all_hosts); no stuck state for '
               'M >= 1 (C12_deadlock_free) and no lock held / nobody queued on a lock / no exception between steps '
               '(C12_no_exception_no_lock_held). Nothing is _partial or _refuted on the current tree (three round-1 fix commits).')
 LEVEL_NOTE = ('The model is hand-written; the tie to wpull/network/pool.py + BaseSession is the trace-inclusion run of every check '
